@@ -27,6 +27,8 @@ FIXED = [
  ("F23", "C06", "fix: replace validates its arguments before destroying the replaced node", "replace destroyed the target before validating (Err + destroyed subtree; panics for parentless / self / descendant)"),
  ("F24", "C06", "fix: element_wrap refuses attribute and namespace nodes", "element_wrap(attribute_node) returned Err after detaching the attribute"),
  ("F17", "C04", "fix: element_unwrap of a parentless element", "element_unwrap of a parentless element left parentless nodes that were siblings"),
+ ("F32", "C11", "fix: MutableNodeMap::is_empty was inverted", "attributes_mut(e).is_empty() / namespaces_mut(e).is_empty() was inverted"),
+ ("F46", "C07", "fix: reverse_children terminates", "reverse_children(n) never terminated for a node with >= 2 children (or one child plus attribute nodes)"),
  ("F31a", "C06", "fix: create_missing_prefixes returns an error for a document without an element", "create_missing_prefixes panicked on a document without element"),
 ]
 OPEN = [
